@@ -1,7 +1,7 @@
 (* C08 - Guards: cond/unless conjunction and Python-faithful boolean expressions.  Statements only. *)
 From Coq Require Import List Arith Bool ZArith.
 Import ListNotations.
-From PySM Require Import Impl.Engine Impl.Guards Proofs.EngineProofs Proofs.GuardsProofs Proofs.GuardsValue.
+From PySM Require Import Impl.Engine Impl.Guards Proofs.EngineProofs Proofs.GuardsProofs Proofs.GuardsValue Impl.Replace Proofs.ReplaceProofs.
 
 (* ---- the guard list of a transition is a conjunction, evaluated in order ---- *)
 (* [AllHold g x ws c c']: evaluating the entries [ws] in order from [c], every one holds *)
@@ -78,6 +78,29 @@ Theorem C08_guard_entry_is_python_for_every_expression :
       end.
 Proof. exact guard_is_python_all. Qed.
 Print Assumptions C08_guard_entry_is_python_for_every_expression.
+
+(* ---- the textual layer: replace_operators (! ^ v -> not / and / or), on character codes ---- *)
+(* names are never rewritten: any run of at least two word characters - valve, v2, not_v, 10 - is
+   copied unchanged, whatever stands before and after it *)
+Theorem C08_names_containing_v_untouched :
+  forall p w post, forallb is_word w = true -> 2 <= length w ->
+    replace_from p (w ++ post) = w ++ replace_from true post.
+Proof. exact names_untouched. Qed.
+Print Assumptions C08_names_containing_v_untouched.
+
+(* a v standing alone is the disjunction *)
+Theorem C08_lone_v_is_or :
+  forall post, match post with d :: _ => is_word d = false | [] => True end ->
+    replace_from false (vee :: post) = s_or ++ replace_from true post.
+Proof. exact lone_v_is_or. Qed.
+Print Assumptions C08_lone_v_is_or.
+
+(* whatever the text: the result contains no ^ and no ! other than in != (what Python's parser then
+   sees is Python's own spelling) *)
+Theorem C08_output_has_only_python_operators :
+  forall s p, existsb (Nat.eqb caret) (replace_from p s) = false /\ bangs_ok (replace_from p s) = true.
+Proof. exact output_has_only_python_operators. Qed.
+Print Assumptions C08_output_has_only_python_operators.
 
 Theorem C08_and_short_circuits :
   forall rho x r v rd, py_eval rho x = (EV v, rd) -> truthy v = false -> py_eval rho (EAnd x r) = (EV v, rd).
